@@ -75,7 +75,7 @@ def main(argv):
     if cmd == "setup":
         sys.path.insert(0, VERIF)
         from sim import seams
-        seams.install()
+        seams.install(metrics=True)
         import more_executors
         print("library under test:", os.path.dirname(more_executors.__file__))
         from . import primtest
